@@ -13,11 +13,13 @@ from fractions import Fraction
 from vlib import paths, proto, build
 from vlib.proto import hexs, unhex
 from checks import fuzzgen as G
+from checks import c05yin
 
 LEAN_TARGETS = ["LyModel.Props.C05", "LyModel.Props.C05JsonNum"]
 AUDIT = ["Audit/C05.lean", "Audit/C05Fn.lean"]
 GENERATED = ["Consts", "LexConsts"]
-LEAN_TARGETS += ["LyModel.Props.C05Fn"]; GENERATED += ["FnUtf8"]     # functions translated from the C source (tools/c2lean.py), bridged in lean/LyModel/Bridge
+LEAN_TARGETS += ["LyModel.Props.C05Fn"]; GENERATED += ["FnUtf8"]
+LEAN_TARGETS += ["LyModel.Props.C05XmlLex"]; AUDIT += ["Audit/C05XmlLex.lean"]; GENERATED += ["YinArgs"]   # XML pull lexer (shared model LyModel/XmlLex), YIN stream c05yin     # functions translated from the C source (tools/c2lean.py), bridged in lean/LyModel/Bridge
 ASSUMPTIONS = [
     "the theorems are about the Lean buffer-program models; the models are tied to src/json.c, src/xml.c, src/ly_common.c by the white-box "
     "correspondence (wb_jsonnum, wb_text) on every run",
@@ -78,6 +80,8 @@ def _selfref_union_leafref(text):
 def classify(component, what, case):
     if not isinstance(case, dict):
         return None
+    if component == c05yin.COMP:
+        return c05yin.classify(component, what, case)
     stderr = case.get("stderr") or ""
     frames = _frames(stderr)
     entry = case.get("entry") or ""
@@ -670,6 +674,7 @@ def run_api(cx):
         cx.fail("fuzz", "context teardown: " + str(r), {"line": "0 fuzz ctxreset", "reply": r})
 
     lexer_outcomes(cx, api)
+    c05yin.run(cx, api.exe, api.env)
     cx.notes.append("api_fuzz input distribution per entry point: " + json.dumps(api.report(), sort_keys=True))
     cx.notes.append("api_fuzz: %d harness aborts handled, %.1f s in the harness; %s" % (api.crashes, api.t_spent, "; ".join("%s: %d requests, %d aborts, %.1fs" % (k, v[0], v[1], v[2]) for k, v in api.timing.items())))
 
